@@ -78,7 +78,17 @@ def _build(path):
     with open(os.path.join(path, mpath), "wb") as f:
         f.write(b"in-flight manifest")
     tx._register_inflight(mpath)
-    protected = set(inflight_data) | {mpath}
+    # …and a PRE-BUILT file in a partition sub-directory queued by the same open transaction (file-level API)
+    import pyarrow as pa
+    import pyarrow.parquet as pq
+    from datashard.data_structures import DataFile, FileFormat
+    pre = "data/region=eu/part-0.parquet"
+    os.makedirs(os.path.join(path, "data/region=eu"), exist_ok=True)
+    pq.write_table(pa.table({"id": [77], "name": ["pre"]}, schema=t.file_manager.data_file_manager.create_arrow_schema(tablekit.schema())),
+                   os.path.join(path, pre))
+    tx.append_files([DataFile(file_path="/" + pre, file_format=FileFormat.PARQUET, partition_values={}, record_count=1,
+                              file_size_in_bytes=os.path.getsize(os.path.join(path, pre)))])
+    protected = set(inflight_data) | {mpath, pre}
     old = time.time() - 7200
     for r, _d, fs in os.walk(path):
         for fn in fs:
@@ -331,6 +341,57 @@ def _marker_faults(ctx, rep, base):
     shutil.rmtree(path, ignore_errors=True)
 
 
+def _os_level_listing_faults(ctx, rep, base):
+    """the listing fails BELOW the storage interface: the directory scan of metadata/inflight, data or metadata/manifests raises
+    (EACCES / EIO) inside os.walk / os.scandir — the collection must raise without deleting, not see an empty directory"""
+    path = os.path.join(base, "osl")
+    t, tx, protected = _build(path)
+    reach = _reachable_all(path)
+    snap = os.path.join(base, "osl.snap")
+    shutil.copytree(path, snap, copy_function=shutil.copy2)
+    real_scandir, real_listdir = os.scandir, os.listdir
+    for victim in ("metadata/inflight", "data", "metadata/manifests"):
+        for err in (PermissionError(13, "injected EACCES"), OSError(5, "injected EIO")):
+            shutil.rmtree(path)
+            shutil.copytree(snap, path, copy_function=shutil.copy2)
+            target = os.path.realpath(os.path.join(path, victim))
+
+            def scandir(p_=".", _t=target, _e=err):
+                try:
+                    if os.path.realpath(os.fsdecode(p_)) == _t:
+                        raise _e
+                except TypeError:
+                    pass
+                return real_scandir(p_)
+
+            def listdir(p_=".", _t=target, _e=err):
+                try:
+                    if os.path.realpath(os.fsdecode(p_)) == _t:
+                        raise _e
+                except TypeError:
+                    pass
+                return real_listdir(p_)
+            before = _files(path)
+            os.scandir, os.listdir = scandir, listdir
+            try:
+                outcome = _run_gc(t, Plan())
+            finally:
+                os.scandir, os.listdir = real_scandir, real_listdir
+            after = _files(path)
+            case = {"kind": "os-level-listing-fault", "directory": victim, "error": type(err).__name__}
+            _judge(rep, f"directory scan of {victim} fails ({type(err).__name__}) inside the backend", case, before, after, outcome, reach, protected,
+                   "C07:listing-failure-read-as-empty-directory")
+            if not outcome.startswith("raise"):
+                rep.violate("C07:listing-failure-read-as-empty-directory", f"the directory scan of {victim} failed ({type(err).__name__}) below the storage "
+                            f"interface and the collection returned normally ({sorted(before - after)[:2]} deleted)", case)
+    shutil.rmtree(snap)
+    shutil.rmtree(path, ignore_errors=True)
+    try:
+        tx.rollback()
+    except Exception:       # noqa: BLE001
+        pass
+
+
 def _stale_recovery(ctx, rep, base):
     """the pointer is unusable (garbage / missing / empty) on a table with MORE THAN NINE metadata versions: the collector works from
     whatever version recovery picks — it must be the newest, or nothing reachable from the newest may go"""
@@ -377,6 +438,7 @@ def run(ctx, model_ok):
     try:
         _single_faults(ctx, rep, base)
         _corruptions(ctx, rep, base)
+        _os_level_listing_faults(ctx, rep, base)
         _stale_recovery(ctx, rep, base)
         _escaping_listing(ctx, rep, base)
         _marker_faults(ctx, rep, base)
